@@ -62,7 +62,7 @@ theorem gen_verify_OSAP (c : Gen.OSAPConfig) :
       Gen.BufConfig_Verify ⟨c.ShrinkSize, c.BufferSize, c.WindowSize, c.BlockSize⟩ = .ok := by
     rw [gen_bufVerify]; rfl
   simp only [verify, Bool.and_eq_true, decide_eq_true_eq, hb]
-  simp only [Gen.OSAPConfig_Verify, gen_helper, ofOSAP, Facts.defCost]
+  simp only [Gen.OSAPConfig_Verify, gen_helper, ofOSAP, Facts.defCost, Facts.maxInt32]
   gen_cases
 
 theorem gen_accepted_OSAP (c : Cfg) :
